@@ -369,9 +369,257 @@ def runConcSection (r : Report) (s : Section) : Report := Id.run do
         r := r.violation s.idx l.idx s!"data-race-detected races={races} op=[{joinSp l.op}]"
   return r
 
+/-! resolver Build sections (`h=build`): several resolvers on one service key, registry events injected at the
+points of `discovBuilder.Build`:
+  snap <k>:<v>… | build <id> plain | build <id> first|after p:<k>:<v> d:<k>… | close <id> | put … | del … | batch … |
+  reload … | reloadc … | connreload … | cancel | closech
+  => p<id>=<published ids> v<id>=<Values() ids> u<id>=<UpdateState calls> …   (one triple per live resolver) -/
+
+structure BSt where
+  reg   : Map Nat := []
+  live  : List Nat := []
+  built : Bool := false
+
+def runBuildLine (st : BSt) (r : Report) (sec : Nat) (l : Line) : BSt × Report := Id.run do
+  let mut r := r
+  -- the registry events of the line, the resolver that is built / closed
+  let parsed : Option (List Ev × Option Nat × Option Nat) :=
+    match l.op with
+    | "snap" :: ts => if st.built then none else do pure ([.reload (← parsePairs ts) [] []], none, none)
+    | ["build", id, "plain"] => do pure ([], some (← id.toNat?), none)
+    | "build" :: id :: "first" :: ts | "build" :: id :: "after" :: ts => do pure ((← ts.mapM parseBatchTok), some (← id.toNat?), none)
+    | ["close", id] => do pure ([], none, some (← id.toNat?))
+    | ["put", k, v] => do pure ([.put (← k.toNat?) (← v.toNat?)], none, none)
+    | ["del", k] => do pure ([.del (← k.toNat?)], none, none)
+    | "batch" :: ts => do pure ((← ts.mapM parseBatchTok), none, none)
+    | "reload" :: ts | "reloadc" :: ts | "connreload" :: ts => do pure ([.reload (← parsePairs ts) [] []], none, none)
+    | ["cancel"] | ["closech"] => some ([], none, none)
+    | _ => none
+  let some (evs, bld, cls) := parsed | return (st, r.mismatch sec l.idx "bad-op" (joinSp l.op))
+  if (l.op.head? != some "snap") && !st.built && bld.isNone then return (st, r.mismatch sec l.idx "op-before-the-first-build" (joinSp l.op))
+  r := { r with ops := r.ops + 1 }
+  let reg' := evs.foldl Spec.apply st.reg
+  let mut live := st.live
+  match bld with
+  | some id =>
+    if live.contains id then return (st, r.mismatch sec l.idx "resolver-built-twice" (joinSp l.op))
+    r := r.addCover (if st.built then "build-joins-the-existing-watch" else "build-creates-the-watch")
+    r := r.addCover s!"build-{l.op.getD 2 "?"}"
+    if !st.built && !st.reg.isEmpty then r := r.addCover "build-loads-a-nonempty-registry"
+    if l.op.getD 2 "" = "first" then
+      if Spec.viewList reg' ≠ Spec.viewList st.reg then r := r.addCover "event-during-first-publication-changes-the-addresses"
+      else r := r.addCover "event-during-first-publication-keeps-the-addresses"
+    live := live ++ [id]
+    if live.length ≥ 2 then r := r.addCover "several-resolvers-on-one-key"
+  | none => pure ()
+  match cls with
+  | some id =>
+    if !(live.contains id) then return (st, r.mismatch sec l.idx "close-of-an-unknown-resolver" (joinSp l.op))
+    live := live.filter (· ≠ id)
+    r := r.addCover "resolver-closed"
+  | none => pure ()
+  if bld.isNone && cls.isNone then r := r.addCover s!"build-section-{l.op.headD "?"}"
+  let want := Spec.viewList reg'
+  let wantS := showNats want
+  for id in live do
+    let some pS := kv? l.obs s!"p{id}" | r := r.mismatch sec l.idx s!"p{id}=<present>" "absent"
+    let some vS := kv? l.obs s!"v{id}" | r := r.mismatch sec l.idx s!"v{id}=<present>" "absent"
+    let ups := kvStr l.obs s!"u{id}" "?"
+    let some pubL := parseNats (splitComma pS) | r := r.mismatch sec l.idx "bad-pub" pS
+    let some valL := parseNats (splitComma vS) | r := r.mismatch sec l.idx "bad-values" vS
+    -- the subscriber behind the resolver shows the registry
+    if vS ≠ wantS then
+      r := r.violation sec l.idx s!"view-differs-from-registry spec=[{wantS}] impl=[{vS}] excl=false op=[{joinSp l.op}] registry=[{showMapping reg'}] (resolver {id})"
+    -- at quiescence the last UpdateState carries Values(): all of them up to 32, otherwise 32 distinct ones of them
+    let okSubset := pubL.all (valL.contains ·) && (Spec.canonSet pubL).length == pubL.length
+    let okSize := pubL.length == min valL.length subsetSize
+    if valL.length ≤ subsetSize then r := r.addCover "publish-all" else r := r.addCover "publish-32-subset"
+    if !(okSubset && okSize) || (kv? l.obs s!"dup{id}").isSome then
+      r := r.violation sec l.idx s!"resolver-published-differs-from-values-at-quiescence resolver={id} pub=[{pS}] values=[{vS}] registry=[{showMapping reg'}] op=[{joinSp l.op}]"
+    -- Build publishes at least once; an event that changes the addresses is followed by an UpdateState
+    if bld == some id && ups = "0" then
+      r := r.violation sec l.idx s!"build-did-not-publish resolver={id} op=[{joinSp l.op}]"
+    if bld != some id && want ≠ Spec.viewList st.reg && ups = "0" then
+      r := r.violation sec l.idx s!"addresses-changed-without-UpdateState resolver={id} before=[{showNats (Spec.viewList st.reg)}] after=[{wantS}] op=[{joinSp l.op}]"
+  if live.isEmpty && (kv? l.obs "none").isNone then r := r.mismatch sec l.idx "none=1" (joinSp l.obs)
+  return ({ reg := reg', live := live, built := st.built || bld.isSome }, r)
+
+def runBuildSection (r : Report) (s : Section) : Report := Id.run do
+  let mut st : BSt := {}
+  let mut r := r
+  for l in s.lines do
+    let (st', r') := runBuildLine st r s.idx l
+    st := st'
+    r := r'
+  return r
+
+/-! publisher sections (`h=pub excl=<0/1>`): real Publishers on the fake etcd's lease store, a real Subscriber
+  sub | pub <p> <id> <v> | pubx <p> <id> <v> | pause <p>… | resume <p>… | stop <p> | kaclose <p>… | rl | join
+  => store=<key:value:lease,…> xstore=<…> leases=<p:lease:fullKeyId,…> [timeout=1] + the subscriber observation -/
+
+structure PEnt where
+  p       : Nat
+  pub     : Pub
+  sibling : Bool
+  running : Bool
+
+structure PSt where
+  sub        : St
+  subscribed : Bool := false
+  pubs       : List PEnt := []
+  store      : Store := []
+  xstore     : Store := []
+
+def showStore (s : Store) : String := ",".intercalate ((sortByFst s).map fun e => s!"{e.1}:{e.2.1}:{e.2.2}")
+
+def parseLease (s : String) : Option (Nat × Nat × String) :=
+  match s.splitOn ":" with
+  | [p, l, k] => do pure ((← p.toNat?), (← l.toNat?), k)
+  | _ => none
+
+def PSt.setPub (st : PSt) (e : PEnt) : PSt := { st with pubs := st.pubs.filter (·.p ≠ e.p) ++ [e] }
+
+/-- `register` of one publisher with the lease etcd granted; the events the watch of OUR service key gets -/
+def PSt.doRegister (st : PSt) (e : PEnt) (lease : Nat) : PSt × List Ev :=
+  let pub' := e.pub.register lease
+  let st' := st.setPub { e with pub := pub', running := true }
+  if e.sibling then ({ st' with xstore := storePut st'.xstore pub' }, [])
+  else ({ st' with store := storePut st'.store pub' }, registerEvents pub')
+
+def PSt.doRevoke (st : PSt) (e : PEnt) : PSt × List Ev :=
+  let st' := st.setPub { e with running := false }
+  if e.sibling then ({ st' with xstore := storeRevoke st'.xstore e.pub.lease }, [])
+  else ({ st' with store := storeRevoke st'.store e.pub.lease }, revokeEvents st'.store e.pub.lease)
+
+def evTok : Ev → String
+  | .put k v => s!"p:{k}:{v}"
+  | .del k => s!"d:{k}"
+  | .reload _ _ _ => "?"
+
+def levToEv : LEv → Ev
+  | .add k v => .put k v
+  | .del k => .del k
+
+/-- the keys of `vals=<v:[k.k];…>` in the order they are listed -/
+def keysOfVals (s : String) : List Nat :=
+  (if s = "" then [] else s.splitOn ";").flatMap fun ent =>
+    match ent.splitOn ":" with
+    | [_, ks] => ((ks.replace "[" "").replace "]" "").splitOn "." |>.filterMap (·.toNat?)
+    | _ => []
+
+def runPubLine (st0 : PSt) (r0 : Report) (sec : Nat) (l : Line) : PSt × Report := Id.run do
+  let mut r := r0
+  let mut st := st0
+  let leases := (splitComma (kvStr l.obs "leases" "")).filterMap parseLease
+  let leaseOf (p : Nat) : Option Nat := (leases.find? (·.1 = p)).map (·.2.1)
+  let mut evs : List Ev := []
+  let mut bad := false
+  let kind := l.op.headD "?"
+  match l.op with
+  | ["sub"] | ["rl"] | ["join"] => pure ()
+  | "pub" :: args | "pubx" :: args =>
+    let k := kind
+    match args with
+    | [p, id, v] =>
+     match p.toNat?, id.toNat?, v.toNat? with
+     | some p, some id, some v =>
+      match leaseOf p, st.pubs.find? (·.p = p) with
+      | some lease, none =>
+        let (st', e') := st.doRegister { p := p, pub := { id := id, value := v }, sibling := k == "pubx", running := false } lease
+        st := st'
+        evs := evs ++ e'
+        r := r.addCover (if id > 0 then "publisher-with-fixed-id" else "publisher-keyed-by-lease")
+        if k == "pubx" then r := r.addCover "publisher-of-the-sibling-service"
+        if !st0.subscribed then r := r.addCover "publisher-registered-before-the-subscriber"
+      | _, _ => bad := true
+     | _, _, _ => bad := true
+    | _ => bad := true
+  | k :: ps =>
+    if !(["pause", "resume", "stop", "kaclose"].contains k) || ps.isEmpty then bad := true
+    for t in ps do
+      match t.toNat?.bind fun p => st.pubs.find? (·.p = p) with
+      | none => bad := true
+      | some e =>
+        if k == "pause" || k == "stop" || k == "kaclose" then
+          let (st', e') := st.doRevoke e
+          st := st'
+          evs := evs ++ e'
+          if k == "stop" && !e.running then r := r.addCover "stop-of-a-paused-publisher"
+        if k == "resume" || k == "kaclose" then
+          match leaseOf e.p, st.pubs.find? (·.p = e.p) with
+          | some lease, some e1 =>
+            let (st', e') := st.doRegister e1 lease
+            st := st'
+            evs := evs ++ e'
+            if e.pub.id > 0 then r := r.addCover "fixed-id-publisher-registers-again-under-the-same-key"
+            else r := r.addCover "lease-keyed-publisher-registers-again-under-a-new-key"
+          | _, _ => bad := true
+    if ps.length > 1 then r := r.addCover s!"{k}-of-several-publishers"
+  | [] => bad := true
+  if bad then return (st0, r.mismatch sec l.idx "bad-op" (joinSp (l.op ++ ["=>"] ++ l.obs)))
+  r := r.addCover s!"pub-{kind}"
+  -- the publishers' bookkeeping: p.lease / p.fullKey, and what etcd holds
+  for e in st.pubs do
+    match leases.find? (·.1 = e.p) with
+    | some (_, lease, key) =>
+      if lease ≠ e.pub.lease ∨ key ≠ toString e.pub.fullKey then
+        r := r.mismatch sec l.idx s!"publisher {e.p}: lease={e.pub.lease} fullKey={e.pub.fullKey}" s!"lease={lease} fullKey={key}"
+    | none => r := r.mismatch sec l.idx s!"publisher {e.p}" "absent"
+  if showStore st.store ≠ kvStr l.obs "store" "?" then r := r.mismatch sec l.idx s!"store={showStore st.store}" s!"store={kvStr l.obs "store" "?"}"
+  if showStore st.xstore ≠ kvStr l.obs "xstore" "?" then r := r.mismatch sec l.idx s!"xstore={showStore st.xstore}" s!"xstore={kvStr l.obs "xstore" "?"}"
+  if (kv? l.obs "timeout").isSome then
+    r := r.violation sec l.idx s!"publisher-did-not-register-or-revoke op=[{joinSp l.op}] store=[{kvStr l.obs "store" "?"}]"
+  if (st.pubs.filter fun e => !e.sibling && e.running).length ≥ 2 then r := r.addCover "several-live-publishers"
+  if (st.pubs.any fun e => e.sibling && e.running) then r := r.addCover "sibling-service-registered"
+  if !st.subscribed && kind ≠ "sub" then
+    if (kv? l.obs "values").isSome then r := r.mismatch sec l.idx "values=<absent>" "values=<present>"
+    return (st, r)
+  if (kv? l.obs "values").isNone then return (st, r.mismatch sec l.idx "values=<present>" "values=<absent>")
+  -- the subscriber side: the same model, monitor and correspondence as in the subscriber harness
+  let kvsOf (s : Store) : List String := (sortByFst s).map fun e => s!"{e.1}:{e.2.1}"
+  let line : Line :=
+    match kind with
+    | "sub" =>
+      -- NewSubscriber loads the store; the order in which handleChanges ranged over the snapshot is read off vals=
+      let kvs := (sortByFst st.store).map fun e => (e.1, e.2.1)
+      let order := keysOfVals (kvStr l.obs "vals" "")
+      let adds := kvs.filter (fun kv => !order.contains kv.1) ++ order.filterMap (fun k => kvs.find? (·.1 = k))
+      { l with op := "reload" :: kvsOf st.store,
+               obs := [s!"log={showLog (adds.map fun kv => LEv.add kv.1 kv.2)}", s!"notified={adds.length}"]
+                        ++ l.obs.filter (fun t => !(t.startsWith "log=") && !(t.startsWith "notified=")) }
+    | "rl" => { l with op := "reload" :: kvsOf st.store }
+    | "join" => l
+    | _ =>
+      -- several publishers act concurrently in one operation: etcd's order of their puts / revokes is observed
+      let obsEvs := ((splitComma (kvStr l.obs "log" "")).filterMap parseLogTok).map levToEv
+      let use := if l.op.length > 2 && obsEvs.length == evs.length && evs.all (fun e => obsEvs.any (evTok · == evTok e)) then obsEvs else evs
+      { l with op := "batch" :: use.map evTok }
+  if kind == "sub" && !st.store.isEmpty then r := r.addCover "subscriber-loads-registered-publishers"
+  let (sub', r') := runSubLine st.sub r sec line
+  r := r'
+  -- the property at the publisher level: Values() is the set of values of the live publishers of this service
+  if !st.sub.excl then
+    let want := showNats (Spec.canonSet ((st.pubs.filter fun e => !e.sibling && e.running).map (·.pub.value)))
+    let implValues := kvStr l.obs "values" "?"
+    if want ≠ implValues then
+      r := r.violation sec l.idx s!"view-differs-from-live-publishers spec=[{want}] impl=[{implValues}] op=[{joinSp l.op}] store=[{kvStr l.obs "store" "?"}]"
+  return ({ st with sub := sub', subscribed := true }, r)
+
+def runPubSection (r : Report) (s : Section) : Report := Id.run do
+  let excl := kvNat s.cfg "excl" 0 = 1
+  let mut st : PSt := { sub := { excl := excl, cl := { cont := Container.new excl } } }
+  let mut r := r
+  for l in s.lines do
+    let (st', r') := runPubLine st r s.idx l
+    st := st'
+    r := r'
+  return r
+
 def runSection (r : Report) (s : Section) : Report := Id.run do
+  if kvStr s.cfg "h" "" = "pub" then return runPubSection r s
   if kvStr s.cfg "h" "" = "kube" then return runKubeSection r s
   if kvStr s.cfg "h" "" = "conc" then return runConcSection r s
+  if kvStr s.cfg "h" "" = "build" then return runBuildSection r s
   let excl := kvNat s.cfg "excl" 0 = 1
   let mut st : St := { excl := excl, cl := { cont := Container.new excl } }
   let mut r := r
